@@ -406,7 +406,7 @@ func (c *C06) Do(in *hub.Instance, gg Ghost, op engine.Op, st *engine.Step) {
 }
 
 func init() {
-	Register("C06", MultiRunner(func(tier string) ([]MultiCase, []string) {
+	base := MultiRunner(func(tier string) ([]MultiCase, []string) {
 		dh, do, dl := 4, 3, 400*time.Second
 		if tier == "thorough" {
 			dh, do, dl = 6, 5, 12*time.Minute
@@ -422,6 +422,29 @@ func init() {
 				"maps of <=4 keys: all n! orders; larger: reverse, rotations, adjacent swaps; deviation bound 1 (quick) / 2 (thorough) per transition",
 				"every transition is additionally executed (a) after serving every gRPC query of both modules on the committed and the working state (also between EndBlock and Commit) and (b) on a fresh instance (new keepers, codecs, stores) restored from the same state; both must reproduce the digest of state and events: process-local state outside the store would show",
 				"SDK-internal maps are not instrumented (cachekv sorts before writing); fresh-instance determinism is covered by the straight-line replays from genesis, which must reproduce the explored state digests",
+				"process-global state: every package-level variable of the module packages (generated code excepted) is listed by tools/maprw; the ones the code can modify after initialisation get a scheduling point before and after every statement that mentions them, and a block transition is interleaved with a concurrent query or transaction simulation (separate instances restored from one state: only process-global memory is shared) under every schedule with at most 1 (quick) / 2 (thorough) preemptions at those points; what the variables refer to is hashed by reflection at the start and at the end of the check",
 			}
-	}))
+	})
+	Register("C06", func(tier string) *Runner {
+		b := base(tier)
+		return &Runner{Replay: b.Replay, Run: func(o RunOpts) Output {
+			out := b.Run(o)
+			if len(out.Violations) > 0 || out.InternalError != "" {
+				return out
+			}
+			r := c06RunShared(o.Tier)
+			if r.Violation != nil {
+				out.Violations = append(out.Violations, engine.Found{Violation: *r.Violation, Reproduced: 2})
+			}
+			cov := out.Evidence["coverage"].(map[string]interface{})
+			cov["shared_state"] = map[string]interface{}{
+				"package_level_variables_hashed": r.Globals, "block_step_query_pairs": r.Pairs, "schedules_executed": r.Schedules, "preemption_bound": r.Bound,
+				"scheduling_points_in_default_schedules": r.Points, "max_points_in_one_schedule": r.MaxPoints, "points_by_variable": r.PointNames,
+				"variables_whose_contents_changed_during_the_check": r.ChangedGlobals, "schedules_stuck_on_a_blocking_primitive": r.Stuck,
+				"rule": "pre-states {after genesis, a transfer pending} x block steps {Send ethereum, Dep ethereum, Next, NextLong, Send minter} (6-decimals token, holders at discount tiers) x {DiscountForHolder(user), DiscountForHolder(recipient), simulation of a withdrawal}; both starting orders; a switch is possible at every point where the other thread is alive",
+			}
+			out.Summary += fmt.Sprintf(" shared_state: globals=%d pairs=%d schedules=%d points=%d changed=%v stuck=%d", r.Globals, r.Pairs, r.Schedules, r.Points, r.ChangedGlobals, r.Stuck)
+			return out
+		}}
+	})
 }
